@@ -63,14 +63,21 @@ def nests(rnd, n):
     out = []
     pairs = [("(", ")"), ("[", "]"), ("{", "}"), ("if true {", "}"), ("fn() {", "}"), ("map {1: ", "}"), ("-(", ")"),
              ("f(", ")"), ("[1, ", "]"), ("match 1 { _ => ", "}")]
+    inner = ["1", "x", "", "1 +", "let", 'len("abc")', "g0 + 1", "puts(g0)", "g0 = 2", "fn(a) { a }(g0)"]
     for _ in range(n):
         depth = rnd.choice([1, 2, 8, 32, 63, 64])
         ps = [rnd.choice(pairs) for _ in range(depth)]
-        s = "".join(p[0] for p in ps) + rnd.choice(["1", "x", "", "1 +", "let"]) + "".join(p[1] for p in reversed(ps))
+        s = "".join(p[0] for p in ps) + rnd.choice(inner) + "".join(p[1] for p in reversed(ps))
         if rnd.random() < 0.3:
             k = rnd.randrange(len(s) + 1)
             s = s[:k] + s[k + rnd.randint(1, 3):]
-        out.append(s)
+        out.append("let g0 = 1;\n" + s if rnd.random() < 0.5 else s)
+    # one kind of bracket all the way down, around every kind of innermost text (names are resolved through every
+    # enclosing scope: the cost of that must stay bounded)
+    for op, cl in pairs:
+        for depth in (16, 40, 64):
+            for text in inner:
+                out.append("let g0 = 1;\n" + op * depth + text + cl * depth)
     return out
 
 
